@@ -6,6 +6,10 @@ HEAD = 'yaclib::OneShotEvent::_head'
 COUNT = 'yaclib::detail::AtomicCounter::count'
 
 
+# the operations that subtract from the group's count AND release the waiters when it reaches zero
+GIVE_BACK = ('yaclib::WaitGroup::Done', 'yaclib::detail::AtomicCounter::Sub')
+
+
 class EvWalker(lib_core.CoreWalker):
     def on_node(self, fn, n, st):
         super().on_node(fn, n, st)
@@ -169,17 +173,20 @@ def run(ctx):
                 ctx.instance(ri, key + ' :: ' + f.full[:100], None)
                 for st, _ in res:
                     eq = [e for e in st.events if e[0] == 'count-eq-wait']
-                    done = [e for e in st.events if e[0] == 'call' and e[1] == 'yaclib::WaitGroup::Done']
+                    done = [e for e in st.events if e[0] == 'call' and e[1] in GIVE_BACK]
                     if not eq:
                         continue
                     if eq[-1][1] is False and len(done) != 1:
-                        ctx.report(ri, key, f.where, 'inputs that were already complete are not subtracted from the '
-                                   'count: the group never reaches zero')
+                        ctx.report(ri, key, f.where, 'inputs that were already complete are not given back through '
+                                   'Done / the counter\'s Sub (the only operations that release the waiters when the '
+                                   'count reaches zero): %s' % ('the group never reaches zero' if not any(
+                                       'fetch_sub' in (c.get('cn') or '') for c in f.calls()) else
+                                       'a raw fetch_sub can take the count to zero without setting the event'))
                         break
                     if eq[-1][1] is True and done:
                         ctx.report(ri, key, f.where, 'Done is called although every input was registered')
                         break
-                dn = [c for c in f.calls() if c['cn'] == 'yaclib::WaitGroup::Done']
+                dn = [c for c in f.calls() if c['cn'] in GIVE_BACK]
                 if not dn:
                     ctx.report(ri, key, f.where, 'inputs that were already complete at registration are never '
                                'subtracted from the count (no Done(count - wait_count)): the group never reaches zero')
